@@ -1,10 +1,350 @@
-import Irc.Inv
-import Irc.Lemmas.Frame
-namespace Irc.C19
-open Irc
+/-
+  C19 — "LUSERS reports the actual numbers of registered users, invisible users, operators and
+  channels and a maximum that is the true high-water mark; ISON and USERHOST list exactly the queried
+  nicknames that are currently registered, with correct operator and away flags.  With
+  max_connections configured never more than that many connections are served at once, and every
+  connection that ends - however it ends - frees its slot."
 
-/-- first obligation (the full theorem list of this property is added as the
-    invariant-preservation proofs land): the initial world has no users. -/
+  Helper lemmas: Irc/Props/InvPropsLemmas.lean.
+-/
+import Irc.Props.InvPropsLemmas
+
+namespace Irc.C19
+open Irc Reply
+
+/-! ### LUSERS -/
+
+/-- the ground truth, counted from the user and channel tables -/
+def Spec.users (w : World) : Nat := w.users.length
+def Spec.invisible (w : World) : Nat := (w.users.filter (fun p => p.2.modes.invisible)).length
+def Spec.visible (w : World) : Nat := (w.users.filter (fun p => !p.2.modes.invisible)).length
+def Spec.operators (w : World) : Nat := (w.users.filter (fun p => p.2.modes.oper || p.2.modes.localOper)).length
+def Spec.channels (w : World) : Nat := w.channels.length
+
+/-- the initial world has no users -/
 theorem init_no_users (cfg : Cfg) : (World.init cfg).users = [] := rfl
+
+theorem Spec.visible_add_invisible (w : World) : Spec.visible w + Spec.invisible w = Spec.users w :=
+  IP.filter_partition_length (fun p : Str × User => p.2.modes.invisible) w.users
+
+/-- the user table has one entry per nickname, so its length is the number of registered users -/
+theorem users_counted_once {w : World} (h : InvCore w) : (Map.keys w.users).Nodup ∧
+    (Map.keys w.users).length = Spec.users w ∧ (Map.keys w.channels).Nodup ∧
+    (Map.keys w.channels).length = Spec.channels w :=
+  ⟨h.usersNodup, by simp [Map.keys, Spec.users], h.chansNodup, by simp [Map.keys, Spec.channels]⟩
+
+/-- the counters the server keeps are the true counts -/
+theorem counters_true {w : World} (h : InvCore w) :
+    w.invisibleCount = Spec.invisible w ∧ w.operatorsCount = Spec.operators w ∧
+    Spec.users w - w.invisibleCount = Spec.visible w ∧ Spec.users w ≤ w.maxUsers := by
+  have hop : w.operatorsCount = Spec.operators w := by
+    rw [h.operatorsCount]
+    unfold Spec.operators
+    congr 2
+    funext p
+    simp only [UserModes.isLocalOper, Bool.or_comm]
+  refine ⟨h.invisibleCount, hop, ?_, h.maxUsers⟩
+  have := Spec.visible_add_invisible w
+  rw [h.invisibleCount]
+  unfold Spec.invisible at *
+  omega
+
+/-- **LUSERS tells the truth.**  In every world satisfying the invariant the seven reply lines carry:
+    251 the number of visible and of invisible users, 252 the number of operators (global or local),
+    253 zero unknown connections, 254 the number of channels, 255 the number of users, 265/266 the
+    number of users and the stored maximum, which is at least the number of users.  The world is not
+    changed (in particular the checked subtraction does not underflow). -/
+theorem lusers_true {cfg : Cfg} {client : Str} {x : Ctx} (h : InvCore x.w) :
+    (processLusers cfg client x).direct = x.direct ++
+      [ srvLine cfg (RplLUserClient251 client (Spec.visible x.w) (Spec.invisible x.w) 1),
+        srvLine cfg (RplLUserOp252 client (Spec.operators x.w)),
+        srvLine cfg (RplLUserUnknown253 client 0),
+        srvLine cfg (RplLUserChannels254 client (Spec.channels x.w)),
+        srvLine cfg (RplLUserMe255 client (Spec.users x.w) 1),
+        srvLine cfg (RplLocalUsers265 client (Spec.users x.w) x.w.maxUsers),
+        srvLine cfg (RplGlobalUsers266 client (Spec.users x.w) x.w.maxUsers) ] ∧
+    Spec.users x.w ≤ x.w.maxUsers ∧
+    (processLusers cfg client x).w = x.w := by
+  obtain ⟨c1, c2, c3, c4⟩ := counters_true h
+  refine ⟨?_, c4, processLusers_world_unchanged h⟩
+  rw [lusers_output, ← c3, ← c2]
+  rw [show Spec.invisible x.w = x.w.invisibleCount from c1.symm]
+  rfl
+
+/-! ### the maximum -/
+
+/-- the largest number of simultaneously registered users seen along a run that starts in `w` -/
+def highWaterFrom (cfg : Cfg) : World → List Event → Nat
+  | w, [] => w.users.length
+  | w, e :: es => max w.users.length (highWaterFrom cfg (step cfg w e).w es)
+
+/-- the high-water mark of a run from the initial world (a ghost quantity: the server does not store
+    the history) -/
+def highWater (cfg : Cfg) (evs : List Event) : Nat := highWaterFrom cfg (World.init cfg) evs
+
+/-- the maximum reported by LUSERS is never below the current number of users -/
+theorem maxUsers_ge_users {w : World} (h : InvCore w) : Spec.users w ≤ w.maxUsers := h.maxUsers
+
+/-- the stored maximum is a running maximum: after every operation it is the larger of its previous
+    value and the new number of registered users (it only moves when a registration completes) -/
+theorem maxUsers_running_max {cfg : Cfg} {w : World} (h : Inv w) {e : Event} (hs : Sched w e) :
+    (step cfg w e).w.maxUsers = max w.maxUsers (Spec.users (step cfg w e).w) :=
+  IP.step_maxUsers h hs
+
+/-- no operation decreases the stored maximum -/
+theorem maxUsers_monotone {cfg : Cfg} {w : World} (h : Inv w) {e : Event} (hs : Sched w e) :
+    w.maxUsers ≤ (step cfg w e).w.maxUsers := by
+  rw [maxUsers_running_max h hs]; exact Nat.le_max_left _ _
+
+theorem highWaterFrom_ge (cfg : Cfg) (w : World) (evs : List Event) :
+    w.users.length ≤ highWaterFrom cfg w evs := by
+  cases evs with
+  | nil => exact Nat.le_refl _
+  | cons e es => exact Nat.le_max_left _ _
+
+theorem maxUsers_from {cfg : Cfg} (evs : List Event) {w : World} (h : Inv w) (hs : SchedFrom cfg w evs) :
+    (evs.foldl (fun w e => (step cfg w e).w) w).maxUsers = max w.maxUsers (highWaterFrom cfg w evs) := by
+  induction evs generalizing w with
+  | nil =>
+    have := h.maxUsers
+    show w.maxUsers = max w.maxUsers w.users.length
+    omega
+  | cons e es ih =>
+    rw [List.foldl_cons, ih (inv_step h hs.1) hs.2, maxUsers_running_max h hs.1]
+    have h1 := highWaterFrom_ge cfg (step cfg w e).w es
+    have h2 := h.maxUsers
+    show _ = max w.maxUsers (max w.users.length (highWaterFrom cfg (step cfg w e).w es))
+    unfold Spec.users
+    omega
+
+/-- **the maximum reported by LUSERS is the true high-water mark**: in the state reached by any
+    well-scheduled sequence of events, `maxUsers` equals the largest number of simultaneously
+    registered users observed at any operation boundary of that run -/
+theorem maxUsers_is_high_water {cfg : Cfg} {evs : List Event} (hs : SchedAll cfg evs) :
+    (run cfg evs).maxUsers = highWater cfg evs := by
+  have := maxUsers_from evs (inv_init cfg) hs
+  unfold run highWater
+  rw [this]
+  exact Nat.max_eq_right (Nat.zero_le _)
+
+/-! ### ISON / USERHOST -/
+
+/-- the queried nicknames that are registered, in query order -/
+def Spec.present (w : World) (nicks : List Str) : List Str :=
+  nicks.filter (fun n => (Map.lookup n w.users).isSome)
+
+/-- one USERHOST entry: `nick[*]=(+|-)~user@host`, `*` iff (local) operator, `-` iff away -/
+def Spec.userhostEntry (n : Str) (u : User) : Str :=
+  n ++ (if u.modes.oper || u.modes.localOper then str "*" else []) ++ str "=" ++
+    (if u.away = none then str "+" else str "-") ++ str "~" ++ u.name ++ str "@" ++ u.hostname
+
+/-- the entries for the queried nicknames that are registered, in query order -/
+def Spec.userhostEntries (w : World) (nicks : List Str) : List Str :=
+  nicks.filterMap (fun n => (Map.lookup n w.users).map (Spec.userhostEntry n))
+
+theorem spec_userhostEntry_eq (n : Str) (u : User) : Spec.userhostEntry n u = Irc.userhostEntry n u := by
+  unfold Spec.userhostEntry Irc.userhostEntry UserModes.isLocalOper
+  rw [Bool.or_comm]
+  cases u.away <;> rfl
+
+theorem spec_userhostEntries_eq (w : World) (nicks : List Str) :
+    Spec.userhostEntries w nicks = Irc.userhostEntries w.users nicks := by
+  unfold Spec.userhostEntries Irc.userhostEntries
+  congr 1
+  funext n
+  cases Map.lookup n w.users with
+  | none => rfl
+  | some u => simp [spec_userhostEntry_eq]
+
+/-- **ISON.**  The reply consists of one 303 line per group of 20 queried nicknames; each lists exactly
+    the registered ones of its group; over all lines exactly the queried registered nicknames are
+    listed, in order.  The world is unchanged. -/
+theorem ison_exact {cfg : Cfg} {c : Nat} {nicknames : List Str} {x : Ctx} :
+    (processIson cfg c nicknames x).direct = x.direct ++
+      (chunks 20 nicknames).map (fun nicks =>
+        srvLine cfg (RplIson303 (x.conn c).clientName (Spec.present x.w nicks))) ∧
+    ((chunks 20 nicknames).map (Spec.present x.w)).flatten = Spec.present x.w nicknames ∧
+    (∀ n, n ∈ Spec.present x.w nicknames ↔ (n ∈ nicknames ∧ ∃ u, Map.lookup n x.w.users = some u)) ∧
+    (processIson cfg c nicknames x).w = x.w := by
+  refine ⟨ison_output_chunks, ison_listed x.w.users nicknames, ?_, processIson_world_unchanged⟩
+  intro n
+  simp only [Spec.present, List.mem_filter, Option.isSome_iff_exists]
+
+/-- the usual case of at most 20 nicknames: a single 303 line -/
+theorem ison_exact_one {cfg : Cfg} {c : Nat} {nicknames : List Str} {x : Ctx}
+    (hne : nicknames ≠ []) (hlen : nicknames.length ≤ 20) :
+    (processIson cfg c nicknames x).direct = x.direct ++
+      [srvLine cfg (RplIson303 (x.conn c).clientName (Spec.present x.w nicknames))] :=
+  ison_output hne hlen
+
+/-- **USERHOST.**  One 302 line per group of 20 queried nicknames; over all lines exactly the entries
+    of the queried registered nicknames, in order; an entry carries `*` iff the user is a (local)
+    operator and `-` iff the user is away. -/
+theorem userhost_exact {cfg : Cfg} {c : Nat} {nicknames : List Str} {x : Ctx} :
+    (processUserhost cfg c nicknames x).direct = x.direct ++
+      (chunks 20 nicknames).map (fun nicks =>
+        srvLine cfg (RplUserHost302 (x.conn c).clientName (Spec.userhostEntries x.w nicks))) ∧
+    ((chunks 20 nicknames).map (Spec.userhostEntries x.w)).flatten = Spec.userhostEntries x.w nicknames ∧
+    (∀ e, e ∈ Spec.userhostEntries x.w nicknames ↔
+      ∃ n u, n ∈ nicknames ∧ Map.lookup n x.w.users = some u ∧ e = Spec.userhostEntry n u) ∧
+    (processUserhost cfg c nicknames x).w = x.w := by
+  refine ⟨?_, ?_, ?_, processUserhost_world_unchanged⟩
+  · rw [userhost_output_chunks]
+    simp only [spec_userhostEntries_eq]
+  · have e : Spec.userhostEntries x.w = Irc.userhostEntries x.w.users :=
+      funext (spec_userhostEntries_eq x.w)
+    rw [e]
+    exact userhost_listed x.w.users nicknames
+  · intro e
+    rw [spec_userhostEntries_eq, mem_userhostEntries]
+    simp only [spec_userhostEntry_eq]
+
+theorem userhost_exact_one {cfg : Cfg} {c : Nat} {nicknames : List Str} {x : Ctx}
+    (hne : nicknames ≠ []) (hlen : nicknames.length ≤ 20) :
+    (processUserhost cfg c nicknames x).direct = x.direct ++
+      [srvLine cfg (RplUserHost302 (x.conn c).clientName (Spec.userhostEntries x.w nicknames))] := by
+  rw [userhost_output hne hlen, spec_userhostEntries_eq]
+
+/-- the flags of an entry, spelled out -/
+theorem userhost_flags (n : Str) (u : User) :
+    Spec.userhostEntry n u =
+      n ++ (if u.modes.oper = true ∨ u.modes.localOper = true then ['*'] else []) ++
+        '=' :: (if u.away = none then '+' else '-') :: '~' :: (u.name ++ '@' :: u.hostname) := by
+  unfold Spec.userhostEntry
+  cases u.modes.oper <;> cases u.modes.localOper <;> cases u.away <;> simp [str]
+
+/-! ### connection slots -/
+
+/-- `connect` with `max_connections = m`: the connection is refused (nothing changes) iff `m`
+    connections are already being served; otherwise it gets a slot -/
+theorem connect_refused_iff {cfg : Cfg} {w : World} (h : InvCore w) {m : Nat}
+    (hm : cfg.maxConnections = some m) (c : Nat) (ip : Str) :
+    (m ≤ w.conns.length ∧
+      step cfg w (.connect c ip) = { w := w, events := [str "refused " ++ natToStr c] }) ∨
+    (w.conns.length < m ∧
+      (step cfg w (.connect c ip)).w =
+        { w with conns := w.conns ++ [Conn.new c ip], connsCount := w.connsCount + 1 } ∧
+      (step cfg w (.connect c ip)).events = []) := by
+  rcases IP.step_connect_cases cfg w c ip with ⟨⟨m', hm', hle⟩, e⟩ | ⟨hlt, e⟩
+  · rw [hm] at hm'; cases hm'
+    left; rw [← h.slots]; exact ⟨hle, e⟩
+  · right; rw [← h.slots]; exact ⟨hlt m hm, by rw [e], by rw [e]⟩
+
+/-- without `max_connections` nobody is refused -/
+theorem connect_unlimited {cfg : Cfg} {w : World} (hm : cfg.maxConnections = none) (c : Nat) (ip : Str) :
+    (step cfg w (.connect c ip)).w =
+      { w with conns := w.conns ++ [Conn.new c ip], connsCount := w.connsCount + 1 } := by
+  rcases IP.step_connect_cases cfg w c ip with ⟨⟨m', hm', _⟩, _⟩ | ⟨_, e⟩
+  · rw [hm] at hm'; cases hm'
+  · rw [e]
+
+/-- only `connect` adds a connection -/
+theorem conns_grow_only_by_connect {cfg : Cfg} {w : World} (h : Inv w) {e : Event}
+    (hne : ∀ c ip, e ≠ .connect c ip) : (step cfg w e).w.conns.length ≤ w.conns.length :=
+  IP.step_conns_length_le h hne
+
+/-- **never more than `max_connections` connections**: the bound is preserved by every step -/
+theorem slots_bounded {cfg : Cfg} {w : World} (h : Inv w) {m : Nat} (hm : cfg.maxConnections = some m)
+    (hb : w.conns.length ≤ m) (e : Event) : (step cfg w e).w.conns.length ≤ m := by
+  by_cases hc : ∃ c ip, e = .connect c ip
+  · obtain ⟨c, ip, rfl⟩ := hc
+    rcases connect_refused_iff h.toInvCore hm c ip with ⟨_, e⟩ | ⟨hlt, e, _⟩
+    · rw [e]; exact hb
+    · rw [e]
+      show (w.conns ++ [Conn.new c ip]).length ≤ m
+      rw [List.length_append]
+      exact hlt
+  · exact Nat.le_trans (conns_grow_only_by_connect h (fun c ip e' => hc ⟨c, ip, e'⟩)) hb
+
+/-- the slot counter always equals the number of live connections -/
+theorem slot_counter_exact {w : World} (h : InvCore w) : w.connsCount = w.conns.length := h.slots
+
+/-- however a connection ends, its slot is freed: one `teardown` lowers both the counter and the
+    number of live connections by exactly one -/
+theorem slot_freed_on_every_end {w : World} (h : InvCore w) {cn : Conn} (hm : cn ∈ w.conns) :
+    (teardown w cn.id).connsCount + 1 = w.connsCount ∧
+    (teardown w cn.id).conns.length + 1 = w.conns.length ∧
+    (teardown w cn.id).connsCount = (teardown w cn.id).conns.length :=
+  let ⟨a, b, c⟩ := IP.teardown_connsCount h hm
+  ⟨a, c, b⟩
+
+/-- the same at `step` level for EOF, reset, undecodable input, over-long line and QUIT -/
+theorem slot_freed_step {cfg : Cfg} {w : World} (h : Inv w) {cn : Conn} (hm : cn ∈ w.conns) {e : Event}
+    (he : IP.EndsItself cn.id e) :
+    (step cfg w e).w.connsCount + 1 = w.connsCount ∧
+    (step cfg w e).w.conns.length + 1 = w.conns.length := by
+  have q := IP.step_self_end (cfg := cfg) h hm he
+  obtain ⟨a, b, _⟩ := slot_freed_on_every_end h.toInvCore hm
+  rw [q.connsCount, q.conns]
+  exact ⟨a, b⟩
+
+/-- and for the settling phase with any number of connections ending at once (KILL, DIE) -/
+theorem slots_freed_settle {w : World} (h : InvCore w) (cfg : Cfg) (outs : List (Nat × Str)) (evs : List Str) :
+    (settle cfg w outs evs).1.connsCount = (settle cfg w outs evs).1.conns.length ∧
+    (settle cfg w outs evs).1.connsCount + (w.conns.filter (fun y => y.quit || y.killedBy.isSome)).length
+      = w.connsCount :=
+  let ⟨a, _, c⟩ := IP.settle_slots h cfg outs evs
+  ⟨a, c⟩
+
+/-! ### non-vacuity (`RO.Ex.x`: alice — invisible operator, away — and bob, both on `#c`) -/
+
+example : InvCore RO.Ex.x.w := RO.Ex.inv
+example : Spec.users RO.Ex.x.w = 2 ∧ Spec.invisible RO.Ex.x.w = 1 ∧ Spec.visible RO.Ex.x.w = 1 ∧
+    Spec.operators RO.Ex.x.w = 1 ∧ Spec.channels RO.Ex.x.w = 1 ∧ RO.Ex.x.w.maxUsers = 2 := by decide
+example : ((processLusers RO.Ex.cfg (str "alice") RO.Ex.x).direct.map String.ofList).take 2 =
+    [":irc.irc 251 alice :There are 1 users and 1 invisible on 1 servers",
+     ":irc.irc 252 alice 1 :operator(s) online"] := by decide
+example : Spec.present RO.Ex.x.w [RO.Ex.bob, str "zed", RO.Ex.alice] = [RO.Ex.bob, RO.Ex.alice] := by decide
+example : (Spec.userhostEntries RO.Ex.x.w [RO.Ex.bob, str "zed", RO.Ex.alice]).map String.ofList =
+    ["bob=+~bo@h2", "alice*=-~al@h1"] := by decide
+example : (processUserhost RO.Ex.cfg 1 [RO.Ex.bob, str "zed", RO.Ex.alice] RO.Ex.x).direct.map String.ofList =
+    [":irc.irc 302 alice :bob=+~bo@h2 alice*=-~al@h1"] := by decide
+
+/-- `max_connections = 1` -/
+def exCfg : Cfg := { maxConnections := some 1 }
+-- the second connection is refused, after the first one ended the slot is free again
+example : (run exCfg [.connect 1 (str "a"), .connect 2 (str "b")]).conns.map (·.id) = [1] ∧
+    (step exCfg (run exCfg [.connect 1 (str "a")]) (.connect 2 (str "b"))).events = [str "refused 2"] ∧
+    (run exCfg [.connect 1 (str "a"), .eof 1, .connect 2 (str "b")]).conns.map (·.id) = [2] ∧
+    (run exCfg [.connect 1 (str "a"), .line 1 (str "QUIT"), .connect 2 (str "b")]).conns.map (·.id) = [2] ∧
+    (run exCfg [.connect 1 (str "a"), .tooLong 1, .connect 2 (str "b")]).connsCount = 1 := by decide
+example : highWater {} [.connect 1 (str "a"), .line 1 (str "NICK a"), .line 1 (str "USER a 0 * :r"), .eof 1] = 1 ∧
+    (run {} [.connect 1 (str "a"), .line 1 (str "NICK a"), .line 1 (str "USER a 0 * :r"), .eof 1]).maxUsers = 1 ∧
+    (run {} [.connect 1 (str "a"), .line 1 (str "NICK a"), .line 1 (str "USER a 0 * :r"), .eof 1]).users = [] := by
+  decide
+
+/-! ### reachable worlds -/
+section Reachable
+
+theorem reachable_lusers_true {cfg : Cfg} {evs : List Event} (hs : SchedAll cfg evs) (client : Str) :
+    (processLusers cfg client { w := run cfg evs }).direct =
+      [ srvLine cfg (RplLUserClient251 client (Spec.visible (run cfg evs)) (Spec.invisible (run cfg evs)) 1),
+        srvLine cfg (RplLUserOp252 client (Spec.operators (run cfg evs))),
+        srvLine cfg (RplLUserUnknown253 client 0),
+        srvLine cfg (RplLUserChannels254 client (Spec.channels (run cfg evs))),
+        srvLine cfg (RplLUserMe255 client (Spec.users (run cfg evs)) 1),
+        srvLine cfg (RplLocalUsers265 client (Spec.users (run cfg evs)) (run cfg evs).maxUsers),
+        srvLine cfg (RplGlobalUsers266 client (Spec.users (run cfg evs)) (run cfg evs).maxUsers) ] ∧
+    Spec.users (run cfg evs) ≤ (run cfg evs).maxUsers :=
+  let r := lusers_true (cfg := cfg) (client := client) (x := { w := run cfg evs }) (inv_run hs).toInvCore
+  ⟨r.1, r.2.1⟩
+
+/-- with `max_connections = m`, in every reachable state at most `m` connections are served -/
+theorem reachable_slots_bounded {cfg : Cfg} {m : Nat} (hm : cfg.maxConnections = some m)
+    {evs : List Event} (hs : SchedAll cfg evs) :
+    (run cfg evs).conns.length ≤ m ∧ (run cfg evs).connsCount = (run cfg evs).conns.length := by
+  refine ⟨?_, (inv_run hs).slots⟩
+  have key : ∀ (evs : List Event) (w : World), Inv w → SchedFrom cfg w evs → w.conns.length ≤ m →
+      (evs.foldl (fun w e => (step cfg w e).w) w).conns.length ≤ m := by
+    intro evs
+    induction evs with
+    | nil => intro w _ _ hb; exact hb
+    | cons e es ih =>
+      intro w hi hsf hb
+      rw [List.foldl_cons]
+      exact ih _ (inv_step hi hsf.1) hsf.2 (slots_bounded hi hm hb e)
+  exact key evs _ (inv_init cfg) hs (Nat.zero_le _)
+
+end Reachable
 
 end Irc.C19
